@@ -432,22 +432,75 @@ def rule_direct_solver(rep: Report, repo: Repo):
     rep.check(ok, R, f"{MOD}::solve_sylvester_direct explicit block pairs are solved by the diagonal solver", "", loc(f))
     ok = norm(asg.get("explicit_part", ast.Constant(None))) == "solve_sylvester_diagonal(eigenvalues, atol=eigenvalue_atol)"
     rep.check(ok, R, f"{MOD}::solve_sylvester_direct explicit part = solve_sylvester_diagonal(eigenvalues, atol=eigenvalue_atol)", "", loc(outer))
-    li = [s for s in branches if norm(s.test) == "index[0] == len(eigenvalues)"]
+    from .resolve import resolved, run_block
+
+    def parse_term(e):
+        """-> (sign, structure) of an implicit-branch result expression (names already resolved)."""
+        if isinstance(e, ast.UnaryOp) and isinstance(e.op, ast.USub):
+            sg, t = parse_term(e.operand)
+            return -sg, t
+        if isinstance(e, ast.Name) and e.id == "Y":
+            return 1, ("Y",)
+        if isinstance(e, ast.BinOp) and isinstance(e.op, ast.MatMult):
+            if norm(e.left) == "projector":
+                sg, t = parse_term(e.right)
+                return sg, ("P@", t)
+            if norm(e.right) == "projector":
+                sg, t = parse_term(e.left)
+                return sg, ("@P", t)
+        if isinstance(e, ast.Call) and call_name(e) in ("np.column_stack", "np.vstack") and len(e.args) == 1 \
+                and isinstance(e.args[0], (ast.ListComp, ast.GeneratorExp)) and len(e.args[0].generators) == 1:
+            comp = e.args[0]
+            gen = comp.generators[0]
+            if isinstance(gen.iter, ast.Call) and call_name(gen.iter) == "zip" and len(gen.iter.args) == 2 \
+                    and isinstance(gen.target, ast.Tuple) and len(gen.target.elts) == 2 and not gen.ifs:
+                gfn, vecn = (norm(x) for x in gen.target.elts)
+                fam, src = gen.iter.args
+                elt, sg = comp.elt, 1
+                if isinstance(elt, ast.UnaryOp) and isinstance(elt.op, ast.USub):
+                    elt, sg = elt.operand, -1
+                if isinstance(elt, ast.Call) and norm(elt.func) == gfn and len(elt.args) == 1:
+                    arg = elt.args[0]
+                    if isinstance(arg, ast.UnaryOp) and isinstance(arg.op, ast.USub):
+                        arg, sg = arg.operand, -sg
+                    if norm(arg) == vecn and isinstance(fam, ast.Subscript):
+                        if isinstance(src, ast.Attribute) and src.attr == "T":
+                            axis, inner = "columns", src.value
+                        else:
+                            axis, inner = "rows", src
+                        stack = {"np.column_stack": "columns", "np.vstack": "rows"}[call_name(e)]
+                        s2, t = parse_term(inner)
+                        return sg * s2, ("G", norm(fam.value), norm(fam.slice), axis, stack, t)
+        raise AnalysisError(R, f"implicit-branch expression not understood: `{norm(e)[:100]}`")
+
+    def branch_term(stmts):
+        env = run_block([x for x in stmts if not isinstance(x, ast.If)])
+        rets = [x for x in stmts if isinstance(x, ast.Return)]
+        if len(rets) != 1:
+            raise AnalysisError(R, "implicit branch without a single return")
+        return parse_term(resolved(rets[0].value, env))
+
+    li = [s for s in branches if norm(s.test) in ("index[0] == len(eigenvalues)", "len(eigenvalues) == index[0]")]
     if len(li) != 1:
         rep.fail(R, f"{MOD}::solve_sylvester_direct left-implicit branch not found", str(tests), loc(f))
     else:
-        body = [norm(s) for s in li[0].body if not isinstance(s, ast.If)]
-        ok = body == ["Y = projector @ Y",
-                      "result = np.column_stack([-gf(vec) for gf, vec in zip(greens_functions_left[index[1]], Y.T)])",
-                      "return projector @ result"]
-        rep.check(ok, R, f"{MOD}::solve_sylvester_direct left-implicit: T = -P [G_b(H_0) (P Y)_b]_b  (columns, negated, projected before and after)",
-                  "; ".join(body), loc(li[0]))
-    tail = [norm(s) for s in f.body if not isinstance(s, (ast.If,)) and not (isinstance(s, ast.Expr) and isinstance(s.value, ast.Constant))]
-    ok = tail == ["Y = Y @ projector",
-                  "result = np.vstack([gf(vec) for gf, vec in zip(greens_functions_right[index[0]], Y)])",
-                  "return result @ projector"]
-    rep.check(ok, R, f"{MOD}::solve_sylvester_direct right-implicit: T = [G_a(H_0^T) (Y P)_a]_a P  (rows, not negated, projected before and after)",
-              "; ".join(tail), loc(f))
+        got = branch_term(li[0].body)
+        want = (-1, ("P@", ("G", "greens_functions_left", "index[1]", "columns", "columns", ("P@", ("Y",)))))
+        inst = f"{MOD}::solve_sylvester_direct left-implicit: T = -P [G_b(H_0) (P Y)_b]_b  (columns, negated, projected before and after)"
+        if got == want:
+            rep.ok(R, inst, str(got), loc(li[0]))
+        else:
+            rep.fail(R, f"{MOD}::solve_sylvester_direct left-implicit branch computes {got}", f"required {want}: "
+                     "(H_B - E_b) T_b = Y_b  =>  T_b = -G_b(H_0) Y_b, column by column, inside range(P)", loc(li[0]))
+    tail = [x for x in f.body if not isinstance(x, ast.If) and not (isinstance(x, ast.Expr) and isinstance(x.value, ast.Constant))]
+    got = branch_term(tail)
+    want = (1, ("@P", ("G", "greens_functions_right", "index[0]", "rows", "rows", ("@P", ("Y",)))))
+    inst = f"{MOD}::solve_sylvester_direct right-implicit: T = [G_a(H_0^T) (Y P)_a]_a P  (rows, not negated, projected before and after)"
+    if got == want:
+        rep.ok(R, inst, str(got), loc(f))
+    else:
+        rep.fail(R, f"{MOD}::solve_sylvester_direct right-implicit branch computes {got}", f"required {want}: "
+                 "T_a (E_a - H_B) = Y_a  =>  T_a^T = G_a(H_0^T) Y_a^T, row by row, inside range(P)", loc(f))
     ev = norm(asg.get("eigenvalues", ast.Constant(None)))
     rep.check(ev == "[np.diag(Dagger(left) @ h_0 @ right) for right, left in zip(right_eigenvectors, left_eigenvectors, strict=True)]", R,
               f"{MOD}::solve_sylvester_direct explicit energies are diag(L_i^H H_0 R_i)", ev, loc(outer))
